@@ -292,3 +292,32 @@ func fdName(fd *ast.FuncDecl) string {
 	}
 	return fd.Name.Name
 }
+
+// astInspectKV calls cb with the source text of the value of every `key: value` element of a
+// composite literal inside fd.
+func astInspectKV(fd *ast.FuncDecl, key string, cb func(val string)) {
+	if fd == nil || fd.Body == nil {
+		return
+	}
+	ast.Inspect(fd.Body, func(n ast.Node) bool {
+		if kv, ok := n.(*ast.KeyValueExpr); ok {
+			if id, ok := kv.Key.(*ast.Ident); ok && id.Name == key {
+				cb(types.ExprString(kv.Value))
+			}
+		}
+		return true
+	})
+}
+
+func posOf(c *Ctx, n ast.Node) string {
+	if n == nil {
+		return ""
+	}
+	switch x := n.(type) {
+	case *ast.FuncDecl:
+		if x == nil {
+			return ""
+		}
+	}
+	return c.L.Pos(n.Pos())
+}
